@@ -14,7 +14,7 @@ import (
 func init() {
 	register(&explore.Prop{
 		ID: "C06", Level: levelMC, Explorer: "E1 input-space enumerator + E2 path mode (visit histories)",
-		Rule: "STORED-S (<=3 docs x 8 stored configurations) in forms built / loaded-mem / loaded-file / merged by block copy / merged by re-encode (drops; differing field lists): every doc number plus {Count, Count+1, Count+127, Count+128, 2^32}, every early-stop index; STORED-X (130 stored values in one document, a 20 000-byte value, stored field ids >= 128); COPY-CROSS (two-segment block-copy merges whose merged count crosses a multiple of 128 inside a source block); STORED-B (130 docs in two blocks; length of doc 0 and doc 128 in 0..24, six record shapes for the last record of each block): every doc of interest and every sequence of <=3 visits over {0,127,128,129} on a freshly loaded segment (the decompressed block is cached, so a visit depends on earlier ones), also after merge; " +
+		Rule: "STORED-S (<=3 docs x 8 stored configurations) in forms built / loaded-mem / loaded-file / merged by block copy / merged by re-encode (drops; differing field lists): every doc number plus {Count, Count+1, Count+127, Count+128, 2^32}, every early-stop index; STORED-X (130 stored values in one document, a 20 000-byte value, stored field ids >= 128); COPY-CROSS (two-segment block-copy merges whose merged count crosses a multiple of 128 inside a source block); REENC-CROSS (one- and two-segment re-encoding merges - deletions early in a segment, differing field lists - whose input numbering is shifted against the output numbering across a 128-document boundary); STORED-B (130 docs in two blocks; length of doc 0 and doc 128 in 0..24, six record shapes for the last record of each block): every doc of interest and every sequence of <=3 visits over {0,127,128,129} on a freshly loaded segment (the decompressed block is cached, so a visit depends on earlier ones), also after merge; " +
 			"distinct = (segment, form, visit sequence); non-trivial = visited document has >=1 stored value, sequences: touches >=2 different blocks",
 		Assumptions: commonAssumptions, Budget: qBudget, Run: runC06,
 	})
@@ -316,6 +316,91 @@ func runC06(c *explore.Ctx) {
 				}
 				want, _ := model.Merge([]*model.LSeg{lss[order[0]], lss[order[1]]}, []map[uint64]bool{nil, nil})
 				checkAllDocs(c, scope, int64(si), l, want, "merged-copy-two-segments", cas, false)
+			}
+		}
+	}
+	// REENC-CROSS: re-encoding merges (deletions, or differing field lists) whose input numbering is
+	// shifted against the output numbering while a 128-document block boundary is crossed
+	{
+		sizes := [][2]int{{200, 0}, {100, 100}, {127, 3}, {3, 128}, {130, 130}, {129, 2}}
+		type variant struct {
+			name   string
+			drops  [2][]uint32
+			fields [2]string
+		}
+		variants := []variant{
+			{"drop-early-in-first", [2][]uint32{{5}, nil}, [2]string{"a", "a"}},
+			{"drop-first-of-second", [2][]uint32{nil, {0}}, [2]string{"a", "a"}},
+			{"drop-two-in-each", [2][]uint32{{0, 1}, {1, 2}}, [2]string{"a", "a"}},
+			{"differing-fields", [2][]uint32{nil, nil}, [2]string{"a", "b"}},
+			{"differing-fields+drop", [2][]uint32{{2}, nil}, [2]string{"b", "a"}},
+		}
+		var ri int64
+		for _, sz := range sizes {
+			for _, v := range variants {
+				my := ri
+				ri++
+				scope := "REENC-CROSS"
+				if !c.MineIdx(scope, my) {
+					continue
+				}
+				c.Eval()
+				mk := func(tag, field string, n int) []model.Doc {
+					b := make([]model.Doc, n)
+					for i := range b {
+						b[i] = model.Doc{gen.IDField(tag, i), {N: field, St: true, Val: []byte(fmt.Sprintf("%s-stored-%d", tag, i)), Len: 1, Terms: []model.Term{{T: "x", Freq: 1}}}}
+					}
+					return b
+				}
+				cas := fmt.Sprintf("REENC-CROSS #%d sizes=%v %s", my, sz, v.name)
+				var segs []segment.Segment
+				var lss []*model.LSeg
+				var drops []*roaring.Bitmap
+				var dsets []map[uint64]bool
+				bad := false
+				for k := 0; k < 2; k++ {
+					if sz[k] == 0 {
+						continue
+					}
+					b := mk([]string{"p", "q"}[k], v.fields[k], sz[k])
+					sg, err := build(b, 1025)
+					if err != nil {
+						c.Violate(scope, my, "C06/reenc-cross/build", err.Error(), cas)
+						bad = true
+						break
+					}
+					segs = append(segs, sg)
+					lss = append(lss, model.Build(b))
+					var bm *roaring.Bitmap
+					ds := map[uint64]bool{}
+					for _, d := range v.drops[k] {
+						if int(d) < sz[k] {
+							if bm == nil {
+								bm = roaring.New()
+							}
+							bm.Add(d)
+							ds[uint64(d)] = true
+						}
+					}
+					drops = append(drops, bm)
+					dsets = append(dsets, ds)
+				}
+				if bad {
+					continue
+				}
+				c.Nontrivial()
+				mb, _, _, err := merge(segs, drops, 1025)
+				if err != nil {
+					c.Violate(scope, my, sigOf("C06", "reenc-cross-merge", "error: "+err.Error()), err.Error(), cas)
+					continue
+				}
+				l, err := loadMem(mb)
+				if err != nil {
+					c.Violate(scope, my, sigOf("C06", "reenc-cross-load", "error: "+err.Error()), err.Error(), cas)
+					continue
+				}
+				want, _ := model.Merge(lss, dsets)
+				checkAllDocs(c, scope, my, l, want, "merged-reencode-two-segments", cas, false)
 			}
 		}
 	}
